@@ -74,7 +74,22 @@ int sqfs_meta_reader_read(sqfs_meta_reader_t *m, void *data, size_t size)
 		g_cap_underrun = true;
 		return SQFS_ERROR_OUT_OF_BOUNDS;
 	}
-	(void)i; (void)d;
+	(void)d;
+#ifdef C01_READ_SIZES
+	{	/* sizes the reader computes from image fields: serve a request
+		 * equal to a listed constant with that constant (cbmc handles a
+		 * symbolic-length copy badly) */
+		static const size_t rs[] = { C01_READ_SIZES };
+		for (i = 0; i < sizeof(rs) / sizeof(rs[0]); ++i) {
+			if (size == rs[i] && rs[i] > 0) {
+				(memcpy)(data, g_cap + g_cap_rd, rs[i]);
+				g_cap_rd += rs[i];
+				return 0;
+			}
+		}
+	}
+#endif
+	(void)i;
 	if (size > 0)
 		(memcpy)(data, g_cap + g_cap_rd, size);
 	g_cap_rd += size;
